@@ -53,6 +53,18 @@ Proof.
   - apply (i_dead _ _ I). apply (i_cl_dead _ _ I). exact Hall.
 Qed.
 
+Corollary close_waits_partial ls e :
+  no_overlap raises ls = true -> In e (close_results ls) ->
+  forall t, In t (registered ls) -> In t (called ls) /\ In t (ended ls).
+Proof.
+  intros Hno Hc t Hr. destruct (thread_partial ls e Hno Hc) as (H & _). destruct (H t Hr) as (Hc1 & Hd).
+  split; [|exact Hd]. apply (count_occ_In Nat.eq_dec). lia.
+Qed.
+
+Corollary exception_reraised_partial ls e :
+  no_overlap raises ls = true -> In e (close_results ls) -> e = first_raised ls.
+Proof. intros Hno Hc. apply (thread_partial ls e Hno Hc). Qed.
+
 (** under no_overlap the monitor never dies of the iteration error *)
 Theorem no_iteration_error_partial ls e :
   no_overlap raises ls = true -> In e (monitor_exits ls) -> e = first_raised ls.
